@@ -6,7 +6,7 @@ patch.diff to /repo (git apply), runs the checks named in meta.json ("checks", d
 property's own check; --all-checks: every claimed check), records exit code and VIOLATION line
 in seeded/<id>/result.json, and undoes the change straight afterwards (git checkout -- .).
 /repo must be clean and nothing else may be using it while this runs."""
-import sys, os, json, subprocess, time, re
+import sys, os, json, subprocess, time, re, fcntl
 ROOT = os.path.join(os.path.dirname(os.path.abspath(__file__)), "..")
 REPO = os.environ.get("SEED_REPO", "/repo")   # SEED_REPO=<scratch worktree>: try seeds without touching /repo
 
@@ -19,17 +19,18 @@ def main():
     SD = "harmless" if "--harmless" in sys.argv else "seeded"
     seeds = args or sorted(d for d in os.listdir(os.path.join(ROOT, SD)) if os.path.exists(os.path.join(ROOT, SD, d, "meta.json")))
     claimed = [c["property_id"] for c in json.load(open(os.path.join(ROOT, "MANIFEST.json")))["checks"]]
-    if sh(["git", "-C", REPO, "status", "--porcelain", "--untracked-files=no"]).stdout.strip():
-        print("seedtest: /repo has uncommitted changes; refusing"); return 2
     summary = []
     for sid in seeds:
         d = os.path.join(ROOT, SD, sid)
         meta = json.load(open(os.path.join(d, "meta.json")))
         patch = os.path.join(d, meta.get("patch", "patch.diff"))
         checks = claimed if allchecks else meta.get("checks") or [meta["property"]]
+        lk = open("/tmp/seedrun.lock", "w"); fcntl.flock(lk, fcntl.LOCK_EX)   # shared with tools/runseed.sh
+        if sh(["git", "-C", REPO, "status", "--porcelain", "--untracked-files=no"]).stdout.strip():
+            print(f"seedtest: {REPO} has uncommitted changes; refusing"); return 2
         r = sh(["git", "-C", REPO, "apply", patch])
         if r.returncode != 0:
-            print(f"{sid}: patch does not apply: {r.stdout[:300]}"); summary.append((sid, "PATCH-FAILED")); continue
+            print(f"{sid}: patch does not apply: {r.stdout[:300]}"); summary.append((sid, "PATCH-FAILED")); lk.close(); continue
         res = {}
         try:
             for c in checks:
@@ -41,6 +42,7 @@ def main():
                 print(f"{sid} / {c}: exit {p.returncode} {m.group(0) if m else ''}")
         finally:
             sh(["git", "-C", REPO, "checkout", "--", "."])
+            lk.close()
         json.dump({"seed": sid, "results": res, "at": time.strftime("%Y-%m-%dT%H:%M:%SZ", time.gmtime())}, open(os.path.join(d, "result.json"), "w"), indent=1)
         det = [c for c, v in res.items() if v["exit"] == 1 and v["violation"]]
         if meta.get("expect") == "pass":
